@@ -140,5 +140,9 @@ def bottomK (t : Option (T V)) (n : Nat) (f : Yield σ V) (s : σ) : σ :=
 def topK (t : Option (T V)) (n : Nat) (f : Yield σ V) (s : σ) : σ :=
   if n = 0 then s else (backward t (limitYield f) (s, n)).1
 
+/-- the consumer used by the harness: collect, and answer `false` on the `stop`-th element (0 = never) -/
+def collect (stop : Nat) : Yield (List (Item V)) V := fun acc it =>
+  (it :: acc, !(stop != 0 && (it :: acc).length == stop))
+
 end T
 end ArtVerif
